@@ -563,7 +563,9 @@ pub fn run_pipeline_check(check: &str, tier: Tier, seed: u64) -> i32 {
                 continue;
             }
             seen.push(f.class.clone());
-            // the case is a pure function of (seed, idx): the replay file names them
+            // the operation sequence is a pure function of (seed, idx) and the scenario; the file carries
+            // the scenario so that it stays valid when the workload generator changes
+            let (_, used) = crate::histcomp::case_record_with(tier, seed, *idx, None);
             let file = ReplayFile {
                 check: "C10".into(),
                 property: "C10".into(),
@@ -571,7 +573,7 @@ pub fn run_pipeline_check(check: &str, tier: Tier, seed: u64) -> i32 {
                 detail: f.detail.clone(),
                 seed,
                 case_index: *idx,
-                scenario: Scenario::empty(),
+                scenario: used,
                 sched: sched_for(seed, *idx, SchedMode::Any),
                 trace: Trace::default(),
                 extra: json!({"history_differential": {"tier": tier.name()}}),
@@ -627,7 +629,8 @@ pub fn replay(path: &Path) -> i32 {
     let file = ReplayFile::read(path);
     if !file.extra["history_differential"].is_null() {
         let tier = if file.extra["history_differential"]["tier"].as_str() == Some("thorough") { Tier::Thorough } else { Tier::Quick };
-        let r = crate::histcomp::case_record(tier, file.seed, file.case_index);
+        let fixed = (!file.scenario.pre_state.is_empty() || !file.scenario.txs.is_empty()).then_some(&file.scenario);
+        let (r, _) = crate::histcomp::case_record_with(tier, file.seed, file.case_index, fixed);
         return match r.findings.iter().find(|f| f.class == file.class) {
             Some(f) => {
                 println!("VIOLATION property=C10 replay={} class={}", path.display(), f.class);
